@@ -183,6 +183,9 @@ def run(cx):
                     r = strip_identity(r[1])
                 if r[0] == "call" and name_matches(r[1], "anemo::connection::Connection::origin"):
                     return "origin=" + "|".join(sorted(labels))
+            w_ = origin_eq_test(subj, labels)           # `if connection.origin() == ConnectionOrigin::Inbound { .. } else { .. }`
+            if w_ is not None:
+                return "origin=" + w_
             return None
 
         def stmt_sym(bbi, s, o):
